@@ -362,10 +362,27 @@ class JokerPrior:
 
         if return_logprobs:
             # raise NotImplementedError("This feature has been disabled in v1.3")
+            from pytensor.graph.replace import vectorize_graph
+
             logp = []
             for par in sub_pars.values():
                 try:
-                    _logp = pm.logp(par, raw_samples[par.name]).eval()
+                    # Evaluate the (scalar) log-density graph at the values drawn
+                    # for this parameter *and* for every other sampled parameter:
+                    # priors that depend on other parameters (e.g. K on P and e)
+                    # must be evaluated at the values of the same sample
+                    value = pt.dscalar()
+                    replace = {
+                        other: pt.as_tensor_variable(
+                            np.asarray(raw_samples[name], dtype="float64")
+                        )
+                        for name, other in sub_pars.items()
+                        if other is not par
+                    }
+                    replace[value] = pt.as_tensor_variable(
+                        np.asarray(raw_samples[par.name], dtype="float64")
+                    )
+                    _logp = vectorize_graph(pm.logp(par, value), replace=replace).eval()
                 except Exception:
                     logger.warning(
                         f"Cannot auto-compute log-prior value for parameter {par}"
